@@ -104,7 +104,7 @@ class Schema(ResolverMap):
         "implementations",
         "resolvers",
         "subscriptions",
-        "default_resolver",
+        "_default_resolver",
         "default_resolvers",
     )
 
@@ -227,6 +227,16 @@ class Schema(ResolverMap):
 
             fix_type_references(self)
             self._invalidate_and_rebuild_caches()
+
+    @property
+    def default_resolver(self) -> Optional[Resolver]:
+        return self._default_resolver
+
+    @default_resolver.setter
+    def default_resolver(self, resolver: Optional[Resolver]) -> None:
+        self._default_resolver = resolver
+        # Invalidate validation
+        self._is_valid = None
 
     def validate(self):
         """
